@@ -81,15 +81,23 @@ func hbResponseReady(c *core.Ctx) {
 		return
 	}
 	// (0) BlockUntilResponseReady is exactly `<-d.responseReady`
+	// structurally: the plain receive statement, among statements that can neither block, return,
+	// panic nor start anything (a counter bumped through sync/atomic, a local computed without a call):
+	// nothing else can wake the caller, and waiting does not itself start the request
 	okBlock := false
-	if len(bl.Body.List) == 1 {
-		if es, ok := bl.Body.List[0].(*ast.ExprStmt); ok {
+	for _, st := range bl.Body.List {
+		if es, ok := st.(*ast.ExprStmt); ok {
 			if u, ok := es.X.(*ast.UnaryExpr); ok && u.Op == token.ARROW && astx.IsFieldNamed(info, u.X, "responseReady") {
 				okBlock = true
+				continue
 			}
 		}
+		if !quietStmt(p, info, st, 0) {
+			okBlock = false
+			break
+		}
 	}
-	c.Check(okBlock, "block-is-plain-receive", bl.Pos(), "BlockUntilResponseReady is the single statement `<-d.responseReady`: no other event (context, timer) can let a caller through before the request goroutine's writes are published")
+	c.Check(okBlock, "block-is-plain-receive", bl.Pos(), "BlockUntilResponseReady is the plain statement `<-d.responseReady` (among statements that cannot block, return or start anything): no other event (context, timer) can let a caller through before the request goroutine's writes are published, and waiting does not start the request")
 
 	// (1) W: fields mutated in the request goroutine's call tree
 	roots := []*ast.FuncDecl{mk}
